@@ -213,12 +213,12 @@ func (x *Exec) strLit(s string) *Term {
 			x.perm = append(x.perm, Eq(x.sat(t, IntLit(int64(i))), IntLit(int64(s[i]))))
 		}
 	}
-	// distinctness from earlier literals
-	for o, ot := range x.strLits {
-		if o != s {
-			x.perm = append(x.perm, Neq(t, ot))
-		}
+	if len(s) == 1 {
+		x.perm = append(x.perm, Eq(t, x.ctx.App("charStr", StrSort, IntLit(int64(s[0])))))
+		x.useAxioms("strjoin")
 	}
+	// distinctness from the other literals: an injective numbering
+	x.perm = append(x.perm, Eq(x.ctx.App("litId", IntSort, t), IntLit(int64(len(x.strLits)))))
 	return t
 }
 
@@ -268,6 +268,7 @@ func (x *Exec) mkstr(arr, off, n *Term) *Term {
 }
 func (x *Exec) sconcat(a, b *Term) *Term {
 	x.useAxioms("concat")
+	x.useAxioms("strjoin")
 	return x.ctx.App("sconcat", StrSort, a, b)
 }
 
